@@ -154,6 +154,7 @@ def p1_worker(part, job, seed, thorough):
 
 # ------------------------------------------------------------------------------------------------------
 R_GROUPS = (146, 148, 155, 160, 161, 166, 167)
+HROWS = {r["number"]: r["symops"] for r in symm.load_table() if r["number"] in R_GROUPS and r["choice"] == "H"}
 AC = [(10.0, 14.0), (34.45, 11.24), (6.0, 30.0)]
 
 
@@ -179,6 +180,18 @@ def trig_initial(spec):
     M = lattice.cell_matrix(*cell)
     syms = [s for s, _ in sites]
     frac = np.array([p for _, p in sites], dtype=float)
+    # keep distinct images at least 1 A apart (then they are > 0.01 apart in the fractional metric of either setting,
+    # i.e. away from the library's merge tolerance, as the property stipulates); shift along a fixed generic direction
+    hops = [symm.decode(c) for c in HROWS[spec["number"]]]
+    special = np.array([abs(p[0]) < 1e-12 or abs(p[0] - 1 / 3) < 1e-12 for _, p in sites])
+    for k in range(400):
+        cand = frac + np.where(special[:, None], 0.0, 1.0) * k * np.array([0.0137, -0.0219, 0.0311]) \
+            + np.where(special[:, None], 1.0, 0.0) * k * np.array([0.0, 0.0, 0.0173])
+        if xtal.image_separation(hops, cand, M) > 1.0:
+            frac = cand
+            break
+    else:
+        raise RuntimeError("no well-separated placement found for %s" % spec)
     if spec["start"] == "H":
         return xtal.make_crystal(spec["number"], "H", cell, syms, frac)
     # start in R: reference basis change (obverse setting), exact by construction
